@@ -14,6 +14,7 @@ func rulesC16Round2(c *Ctx) {
 	c16Round3(c)
 	c16Round4(c)
 	remoteProofVersionRule(c, "C16.panic")
+	c16Round5(c)
 	// ---- no allocation sized by an integer read from the wire before that integer has been bounded
 	// A 32/64-bit length read from untrusted bytes that sizes an allocation must first be compared with something (the
 	// remaining input, a configured maximum): four bytes must not make the node allocate gigabytes. 16-bit lengths are
